@@ -58,6 +58,11 @@ claim('C09', 'proof',
  "trusted: Coq kernel, extraction (fast driver), harness; the FFT transforms are not modelled: implementation and exact model agree within the measured FFT tolerance ((k+1)l*max(2,2^(Bgbit-8))+2 units; C10 measures the real figure); after the first CMux step accumulators are compared through their phases (a one-unit FFT difference can move a coefficient across a digit boundary of the next decomposition)",
  "DESIGN.md section 4, C09")
 
+claim('C04', 'proof',
+ "Coq theorems for every N>=1, test polynomial, exponent and dimension: coefficient 0 of X^(2N-p)*v (with the barb=0 copy branch) is the p-th coefficient of the anticyclic extension of v for all 2N values of p; with the constant test vector the message is +mu iff p in [0,N) (half-open, both edges); the rotation exponent lies in [0,2N); the output is a function of the rounded input (barb,bara) only; a zero exponent skips its key element; the scratch array sized n is written in range for every n and N (sized N it is overrun for n>N: D1, repaired); the blind-rotation phase relation is C09's; tied to the code at full size (both default sets, custom sets with n in {1,3,8,1025,1100}, k in {1,2}) by predicting p from the secret key with a library-independent rounding formula and with the extracted model on trivial samples at the centre and both rounding edges of rounded phases incl. 0,N-1,N,2N-1, masks aimed at the sign boundaries and edge-valued masks, all four variants (FFT/coefficient, with/without key switch), and at reduced n by blind-rotate-and-extract with arbitrary test polynomials against coefficient p of the anticyclic extension and against the exact model",
+ "trusted: Coq kernel, extraction, harness; 'small output noise' is checked as |phase - (+-mu)| < 1/16 on every case (its size and independence of x are measured by C02); exact rounding ties of b accepted either way; defect D1 (n>N heap overflow) repaired in /repo (fix: 6f5e88c)",
+ "DESIGN.md section 4, C04")
+
 NA_REASON = "check not built yet in this revision (work in progress; DESIGN.md section 8 gives the order)"
 checks = []
 for p in props:
